@@ -52,6 +52,8 @@ TRUSTED_EXTRA = [
     "scale_to_sd=False: the harness multiplies the raw MAD by 1.4826 and checks it like the default call",
     "input representations (list, Series, int64, float32, ...) are built by the harness from the float64 values "
     "the model is given",
+    "harness/vectrans.py + lean/CnvVerif/Model/NpVec.lean: the typed reading of the numpy vector subset in which the "
+    "estimators of descriptives.py are written (Generated/ExprsDesc.lean; rules listed at the top of vectrans.py)",
 ]
 
 PREFIX = os.environ.get("VERIF_C19_MODEL", "") == "prefix"   # model of the unrepaired functions
